@@ -7,7 +7,7 @@ from .C02 import TextGen, python_judge, NEG0
 SPEC_THEOREM = 'Props/C10: parse_jsonb/from_slice never Panic; decoded strings are UTF-8; proper prefixes are rejected; valid text falls back'
 TRUSTED = ['Coq 8.16.1 kernel', 'translator (tags, masks)', 'extraction + OCaml driver', 'Rust harness', 'model Codec.v (cursor decoder, every get/index/unwrap explicit), JsonText.v']
 ASSUMPTIONS = ['allocation failure is outside the model (capacity hints are bounded by the input after the fix)']
-RULE = 'valid encodings under single faults: truncation at every offset, every single-bit flip, byte substitution by {00,01,7F,80,FF,tag bytes} at every offset, insert/delete at every offset, header-count and entry type/length rewrites; raw random bytes; valid JSON texts; non-trivial = decoder returns a value'
+RULE = 'valid encodings under single faults: truncation at every offset, every single-bit flip, byte substitution by {00,01,7F,80,FF,tag bytes} at every offset, insert/delete at every offset, header-count and entry type/length rewrites, a boundary shifted between neighbouring entries (multi-byte keys and strings); raw random bytes; valid JSON texts; non-trivial = decoder returns a value'
 
 SUBST = [0x00, 0x01, 0x7F, 0x80, 0xFF, 0x10, 0x20, 0x30, 0x40, 0x50, 0x60, 0x70]
 
@@ -27,6 +27,15 @@ def generate(ctx):
         ctx.add('from_slice %s' % h, kind=kind)
         ctx.add('utf8_check %s' % h, kind=kind, diff=False, meta=('utf8',))
 
+    # a fixed corpus next to the random documents: objects and arrays whose keys / strings are multi-byte, so that a
+    # boundary moved between two neighbouring keys (or strings) falls inside a character while the area as a whole stays
+    # well-formed UTF-8 (a decoder validating the concatenation instead of the pieces); also nested below the top level
+    n1, n2 = ('u', 1), ('u', 2)
+    mb = [('o', [('aé'.encode(), n1), (b'b', n2)]), ('o', [(b'a', n1), ('é'.encode(), n2)]), ('o', [('é'.encode(), n1), ('ü'.encode(), n2)]),
+          ('o', [('日本'.encode(), n1), ('語'.encode(), n2), ('𝄞z'.encode(), ('n',))]), ('o', [('é'.encode(), ('s', 'ü'.encode())), ('ü'.encode(), ('s', 'é'.encode()))]),
+          ('a', [('s', 'aé'.encode()), ('s', 'üb'.encode()), ('s', '語'.encode())]),
+          ('a', [('o', [('aé'.encode(), n1), ('éa'.encode(), n2)])]), ('o', [(b'k', ('o', [('é'.encode(), n1), ('ée'.encode(), n2)]))])]
+    ds = mb + ds
     for v in ds:
         e = gen.enc(v)
         if len(e) > 120:
@@ -60,6 +69,14 @@ def generate(ctx):
                     add(e[:off] + struct.pack('>I', (ty << 28) | ln) + e[off + 4:], 'entry-type')
                 for l2 in (0, ln + 1, max(ln - 1, 0), 0x0FFFFFFF, 9, 1):
                     add(e[:off] + struct.pack('>I', (w & 0xF0000000) | l2) + e[off + 4:], 'entry-len')
+            # a boundary moved between two neighbouring entries, the total length unchanged
+            for j in range(k - 1):
+                off = 4 + 4 * j
+                w1, w2 = struct.unpack('>II', e[off:off + 8])
+                l1, l2 = w1 & 0x0FFFFFFF, w2 & 0x0FFFFFFF
+                for d in (1, 2, 3, -1, -2, -3):
+                    if 0 <= l1 + d and 0 <= l2 - d:
+                        add(e[:off] + struct.pack('>II', (w1 & 0xF0000000) | (l1 + d), (w2 & 0xF0000000) | (l2 - d)) + e[off + 8:], 'boundary-shift')
     # known panics of the code before the fixes
     for h in ['2000000020000000', '20000000200000026000', '4000000120000001' + '00000000' + '50', '2000000010000002fffe', '4000000110000002' + '00000000' + 'fffe',
               '400000011000000120000001' + '61' + '', '3132333435363738', '2d31323334353637', '2261626330303030' + '22']:
